@@ -5,6 +5,7 @@ package main
 import (
 	"fmt"
 	"go/types"
+	"regexp"
 	"strings"
 
 	"golang.org/x/tools/go/ssa"
@@ -68,6 +69,10 @@ func patternMatches(pat CallPattern, kind, callee string, pkgShort string) bool 
 	}
 	// dynamic calls may be written without the dyn: prefix
 	if "dyn:"+pat.Callee == callee || "map:"+pat.Callee == callee {
+		return true
+	}
+	// library names may be written with the last path element only: filepath.Join for path/filepath.Join
+	if strings.Contains(callee, "/") && shortLib(callee) == pat.Callee {
 		return true
 	}
 	return false
@@ -632,3 +637,7 @@ func (x *Exec) copyOp(st *State, d, s Val, dT, sT types.Type) Term {
 	}
 	return n
 }
+
+var libPathRe = regexp.MustCompile(`[A-Za-z0-9_.\-]+/`)
+
+func shortLib(name string) string { return libPathRe.ReplaceAllString(name, "") }
